@@ -212,15 +212,15 @@ def EndsInput (r : Realm) (k : SessKey) (op : Op) : Prop :=
   op = .drop k ∨ ∃ m s, op = .msg k m ∧ r.clients.find? (fun c => c.key == k) = some s ∧ endsSession m = true ∧
     (authzGate r s m).1 = true
 
-theorem endsInput_leaving {r : Realm} {k : SessKey} {op : Op} (h : EndsInput r k op) (hb : r.busy k = false)
-    (he : k ∉ r.ending) : Leaving k (r.stepOp op) ∧ (∀ ms, op ≠ .tick ms) := by
+theorem endsInput_leaving {r : Realm} {k : SessKey} {op : Op} (h : EndsInput r k op) (hk : r.isClient k)
+    (hb : r.busy k = false) (he : k ∉ r.ending) : Leaving k (r.stepOp op) ∧ (∀ ms, op ≠ .tick ms) := by
   have hec : r.ending.contains k = false := by
     cases h' : r.ending.contains k
     · rfl
     · exact absurd (List.contains_iff_mem.mp h') he
   rcases h with rfl | ⟨m, s, rfl, hf, hm, hg⟩
   · refine ⟨?_, fun ms e => by cases e⟩
-    rw [stepOp_drop, hec]
+    rw [stepOp_drop_attached hk, hec]
     simp only [Bool.false_eq_true, if_false]
     exact ⟨hb, fun _ => ⟨List.mem_append_right _ (List.mem_singleton.mpr rfl), .lost,
       List.mem_append_right _ (List.mem_singleton.mpr rfl)⟩⟩
@@ -247,7 +247,7 @@ theorem step_gone {r : Realm} (hi : RealmInv r) (hc : CtlInv r) {k : SessKey} (h
     (∀ x ∈ (r.step op).2.retries, x.callee ≠ k) ∧ (r.step op).2.tasks = [] ∧
     RealmInv (r.step op).2 ∧ CtlInv (r.step op).2 := by
   have hkm : k ≠ metaKey := hc.safe.client_ne hk
-  obtain ⟨hl, hnt⟩ := endsInput_leaving hop hb he
+  obtain ⟨hl, hnt⟩ := endsInput_leaving hop hk hb he
   have hopc : OpC r op := by
     rcases hop with rfl | ⟨m, s, rfl, _⟩
     · exact hk
